@@ -10,7 +10,10 @@ EXPLANATION = (
     'propagated), storage errors propagate; (c) the resume cursor is advanced only after the whole batch loop succeeded; (d) '
     'roll-forward storage is chunk-atomic (begin/commit bracket per chunk); (e) the embedded SQL thresholds of the three '
     'roll-back deletes have the directions the repository documents (blocks strictly above the threshold, range roots containing '
-    'or above it). Does not decide convergence over histories, nor restart behaviour.')
+    'or above it); (f) the block delete cascades to the transactions only with foreign keys enforced: who opens SQLite connections, the '
+    'connection factory executes the foreign_keys pragma on every success path when the option is set, both nodes request the option for '
+    'the cardano_tx store, nobody force-disables it; (g) the chain-reader block streamer drops no roll-back except the one that opens '
+    'the chain sync (slot == start slot AND nothing polled yet). Does not decide convergence over histories, nor restart behaviour.')
 
 ASSUMPTIONS = ['SQLite transaction semantics; the chain scanner reports roll-backs faithfully']
 
@@ -395,11 +398,47 @@ def _streamer_rules(ctx):
                 else:
                     continue
                 # the skip is reachable only through the equal edge
-                if sb not in body.reach([0], removed=set(eq_edges)):
+                if sb not in body.reach_bool([0], removed=set(eq_edges)):
                     ok = True
             if not ok:
                 problems.append('SkipToNextAction (bb%d) reachable when the roll-back slot differs from the start slot (guards: %s)' % (
                     sb, ['%s' % x.op for x in gs]))
+    # ... and only while nothing has been streamed yet: the skip must also be gated by a piece of streamer STATE
+    # (a field of the streamer that the polling paths write), otherwise a real roll-back that lands exactly on the
+    # start point after blocks were delivered is swallowed too
+    SELF = STREAMER + 'ChainReaderBlockStreamer'
+    written = set()
+    for h in ws.fns:
+        if h.root().name.startswith('<' + SELF + ' as ') or h.root().name.startswith(SELF + '::'):
+            for fw in h.fwrites:
+                if fw[0] == SELF:
+                    written.add(fw[1])
+    state_gated = nskip == 0
+    for g in lf.family():
+        body = g.body
+        skips = [bi for bi, b in enumerate(body.blocks) if not b.cleanup and any(rv[0] == 'agg' and rv[2] == ACT and rv[3] == skip_idx for (_, _, rv) in b.stmts)]
+        if not skips:
+            continue
+        # switches whose operand derives from a written self field
+        gate_edges = []
+        for bi, b in enumerate(body.blocks):
+            if b.cleanup or b.term[0] != 'sw' or b.term[1][0] not in ('copy', 'move'):
+                continue
+            og = fn_origins(g, b.term[1], True)
+            if any(has(og, 'pty:ChainReaderBlockStreamer.%s*' % w) for w in written):
+                gate_edges.append(bi)
+        for sb in skips:
+            # the skip block must be unreachable once one outgoing edge of such a switch is removed (i.e. the switch decides it)
+            for gb in gate_edges:
+                for succ in body.succ(gb):
+                    if sb not in body.reach_bool([0], removed={(gb, succ)}):
+                        state_gated = True
+    inst2 = 'the skip is also gated by streamer state written while polling (only the opening roll-back, before any block was delivered)'
+    if nskip and not state_gated:
+        R.violation('g', 'R6', inst2, 'streamer:skip-stateless', 'SkipToNextAction depends only on slot == from.slot (state fields written while polling: %s): after blocks '
+                    'were streamed, a fork whose fork point is exactly the start point is never rolled back in the store' % sorted(written), lf.loc())
+    elif nskip:
+        R.ok('g', 'R6', inst2, 'state fields: %s' % sorted(written), lf.loc())
     if nskip == 0:
         R.ok('g', 'R6', inst, 'no roll-back is ever skipped', lf.loc())
     elif problems:
